@@ -53,6 +53,7 @@ var c11Variants = []c11RuleVariant{
 }
 
 func c11Run(c *fw.Ctx) {
+	c.Retries = 2 // socket-based harness: tolerate a transient glitch while replaying a prefix
 	vtime.SetManual(harness.T0)
 	defer vtime.SetReal()
 	const V = 60 * time.Second
